@@ -1008,6 +1008,7 @@ func init() {
 		Run:               runC08,
 		Setup:             c08Setup,
 		SamplingSigPrefix: c08FreeSig,
+		CaseTimeout:       -1, // a case is one explorer subprocess (capped by executions; its own deadlock/hang detection applies)
 		Decode:            kit.DecodeAs[C08Case],
 		Rule: "stateless exploration of thread interleavings of the REAL blockstore/storage/deferred code under a controlled scheduler: the current sources are mechanically rewritten (sync -> shim, go -> scheduler threads, send-or-done select -> modelled channel operation, done-or-default select -> modelled poll, accesses of index/writer objects -> happens-before hooks, store-state hooks at the first mention of the typestate flag (or after the first lock call) whose kind is read in a field-assignment-free section under a read lock, a listing-goroutine hook when the goroutine can reach the store; every other non-test file of the go-car v2 module is scanned and the rewrite refuses goroutines, channels, select, sync and sync/atomic outside the rewritten files); " +
 			"every schedule of 32 scenarios (2-4 threads, 1-3 calls each with a scheduling point between the calls of a thread; colliding keys a/a', 3-4 concurrent writers, batches, listing concurrent with puts, finalize/discard/close concurrent with readers and with each other, identity CIDs with StoreIdentityCIDs on/off, a batch refused by MaxIndexCidSize) over every writable front end (blockstore OpenReadWrite new / resumed / OpenReadWriteFile, storage NewReadableWritable / OpenReadableWritable resumed / NewWritable over a plain io.Writer, deferred writer for a path / for a stream) plus read-only views (NewReadOnly, OpenReadOnly with mmap) x the configuration matrix {dedup, AllowDuplicatePuts, UseWholeCIDs, WriteAsCarV1} (4 single-option configurations; thorough: +3 option pairs for the 8 scenarios with colliding puts; stream front ends: the CARv1 ones; identity scenarios: StoreIdentityCIDs x {dup, v1, whole}) is enumerated depth-first with iterative pre-emption bounding (0,1,2; thorough up to 6 or the execution cap, whichever comes first, the completed bound is reported per scenario); " +
